@@ -14,7 +14,8 @@
 EXTENDS Integers, Sequences, FiniteSets, TLC, Json
 
 CONSTANTS MaxSteps,    \* length bound of a behaviour
-          FinProgs,    \* finalize-hook programmes explored: subset of {"drain","never","done"}
+          FinProgs,    \* finalize-hook programmes explored: subset of {"drain","never","done","hasty"}
+                       \* (hasty: answers finalized at once although it wants the child gone and the child still exists)
           Kinds,       \* subset of {"composite","decorator"}
           Beh
 
@@ -65,7 +66,7 @@ Sync ==
                 LET fz == finOn /\ (p1.deleting \/ ~p1.match)
                     \* answers: sync hook wants the child; finalize hook per programme
                     wantKid == IF fz THEN (fprog = "done") ELSE TRUE
-                    finalized == fz /\ (fprog = "done" \/ (fprog = "drain" /\ ~kids))
+                    finalized == fz /\ (fprog \in {"done", "hasty"} \/ (fprog = "drain" /\ ~kids))
                     \* 3. finalizer removed when finalized (RemoveFinalizer is a no-op if absent)
                     p2 == [p1 EXCEPT !.fin = IF finalized THEN FALSE ELSE @]
                     \* 4. children managed iff the parent is alive, or it is dying, still has our
